@@ -268,11 +268,86 @@ def concl_suite(ctx, search=False):
     ctx.cov["failures"] += nfail
 
 
+def hslot_suite(ctx, search=False):
+    """first use of a prototype slot of a HeterCallbackList by several threads (Conc/HeterSlot.lean)"""
+    quick = ctx.quick()
+    ok, exe, log = vlib.build_harness(src="conc_cl.cpp", out_name="conc_cl_hslot", defines=["VC_HSLOT=1"])
+    ctx.oblige("harness conc_cl_hslot (HeterCallbackList, lazily created prototype slot) builds from /repo/include", ok, log[-2000:])
+    if not ok:
+        return
+    ctx.rule = (ctx.rule + " | " if ctx.rule else "") + (
+        "2-4 threads x 1-3 appends to one HeterCallbackList whose prototype slot does not exist yet, seeded schedules of the baton scheduler over the unlocked reads of the slot, "
+        "the critical section of its mutex and the completed appends; replayed on Conc/HeterSlot.lean; oracle: every callback whose append returned is in the list exactly once")
+    rng = random.Random("%d/C03/hslot" % ctx.seed)
+    runs = []
+    for i in range((60 if quick else 600) * (3 if search else 1)):
+        nt = rng.randint(2, 4)
+        progs, nid = [], 10
+        for t in range(nt):
+            p = []
+            for _ in range(rng.randint(1, 3)):
+                p.append(nid)
+                nid += 1
+            progs.append(p)
+        for k in range(8 if quick else 30):
+            runs.append(("C03s_%d_%d_%d" % (ctx.seed, i, k), rng.randrange(1 << 30), progs))
+
+    def text_of(name, seed, progs):
+        return "--- %s\nseed %d\n" % (name, seed) + "".join("thread %s\n" % " ; ".join("append %d" % c for c in p) for p in progs)
+    nfail = 0
+    B = 600
+    for off in range(0, len(runs), B):
+        chunk = runs[off:off + B]
+        rc, out, err = vlib.run_harness(exe, "".join(text_of(*r) for r in chunk), timeout=600)
+        mtext = ""
+        for name, seed, progs in chunk:
+            sec = out.get(name)
+            if sec is not None:
+                mtext += text_of(name, seed, progs) + "\n".join(l for l in sec if l.startswith("step ")) + "\n"
+        rcm, mout, errm = vlib.run_driver("hslot", mtext, timeout=600)
+        for name, seed, progs in chunk:
+            ctx.cov["evaluations"] += 1
+            script = text_of(name, seed, progs)
+            sec = out.get(name)
+            if sec is None:
+                nfail += 1
+                if nfail <= 3:
+                    ctx.fail("violation", "implementation crashed / hung before this run finished (rc=%s): %s" % (rc, err[-600:]), script, "conc_cl_hslot")
+                continue
+            steps = [l for l in sec if l.startswith("step ")]
+            done = [x for l in sec if l.startswith("done ") for x in l.split()[3:]]
+            final = next((l.split()[2:] for l in sec if l.startswith("final")), [])
+            sched = "# schedule (global order of the performed micro-steps):\n" + "\n".join("# " + l for l in steps)
+            why = None
+            lost = [c for c in done if final.count(c) != 1]
+            if lost:
+                why = "callback(s) %s: append returned, but the list holds them %s time(s): final list %s" % (lost, [final.count(c) for c in lost], final)
+            if why:
+                nfail += 1
+                if nfail <= 3:
+                    ctx.fail("violation", why, script + sched, "conc_cl_hslot")
+                continue
+            msec = mout.get(name, [])
+            mm = [l for l in msec if l.startswith("mismatch")]
+            mfinal = next((l.split()[2:] for l in msec if l.startswith("final")), None)
+            diff = mm[0] if mm else (None if mfinal == final else "final: implementation %s, model %s" % (final, mfinal))
+            if diff:
+                nfail += 1
+                if nfail <= 3:
+                    ctx.fail("correspondence", diff, script + sched, "conc_cl_hslot")
+                continue
+            ctx.cov["traces_validated"] += 1
+            ctx.dist["hslot_steps"] += len(steps)
+            if sum(1 for a, b in zip(steps, steps[1:]) if a.split()[1] != b.split()[1]) >= 3:
+                ctx.nontrivial_keys.add(hashlib.sha1("\n".join(steps).encode()).hexdigest())
+    ctx.cov["failures"] += nfail
+
+
 register(
     "C03",
-    lean_modules=["EventppVerif.Properties.C03", "EventppVerif.Properties.C02bridge"],
+    lean_modules=["EventppVerif.Properties.C03", "EventppVerif.Properties.C02bridge", "EventppVerif.Properties.C03slot"],
     fragments=["ClFrag"],
-    suites=[concl_suite],
+    suites=[concl_suite, hslot_suite],
     level_text="Lean theorems on the concurrent micro-step model of CallbackList over the pointer model (every schedule, any number of threads): well-formedness of the list after every micro-step, "
                "linearizability by fixed linearization points (each adding / removing / querying call takes effect in one atomic critical section whose result is the Spec result on the abstract list), "
                "every traversal step calls a live callback and terminates. Partial: sequential consistency is assumed (the library's intentional unlocked reads are data races by the letter of the "
